@@ -1,6 +1,6 @@
 (* Proofs about the correlation model (Model/Corr.v) against Spec/CorrSpec.v. *)
 From Coq Require Import String Ascii.
-From Coq Require Import List NArith ZArith Bool Arith Lia.
+From Coq Require Import List NArith ZArith Bool Arith Lia DecimalZ DecimalPos.
 From PS Require Import Base.Chars Base.Outcome Model.Backend Spec.Target Model.BTree Model.Corr Spec.CorrSpec
                        Proofs.BackendP Proofs.BackendMainP Proofs.BackendDomP Proofs.BTreeP.
 Import ListNotations.
@@ -26,12 +26,6 @@ Definition clean_rule (r : crule) : bool :=
   && forallb (fun rf => clean_info (rr_info rf)) (referenced r)
   && forallb (fun rf => clean (rr_ref rf)) (r_xrefs r).
 
-(* D-A: alias targets are only renamed when the rule has a group-by list *)
-Definition aliases_renamed (P : list pitem) (r : crule) : bool :=
-  match r_gb r, r_aliases r, P with
-  | None, _ :: _, _ :: _ => false
-  | _, _, _ => true
-  end.
 (* D-B: an alias entry and a rule reference name the same document iff they are spelled the same *)
 Definition aliases_spelled (r : crule) : bool :=
   forallb (fun am : str * list (str * nat * str) =>
@@ -50,7 +44,7 @@ Definition uniform (P : list pitem) (r : crule) : bool :=
 
 Definition dom (K : kcfg) (P : list pitem) (r : crule) : bool :=
   clean_rule r && forallb (fun it => clean_fmap (pi_f it)) P
-  && aliases_renamed P r && aliases_spelled r && no_forced_final K r && uniform P r.
+  && aliases_spelled r && no_forced_final K r && uniform P r.
 
 (* extended conditions: operators have arguments, only references / not / and / or occur, every
    identifier is spelled like the name-or-id of the rule it resolves to (D-C), the backend's
@@ -69,3 +63,142 @@ Definition xdom (K : kcfg) (r : crule) : bool :=
               && forallb (fun rf => str_eqb (rr_ref rf) (ruleid (rr_info rf))) (r_xrefs r)
   | _ => true
   end.
+
+(* ================================================================================================ *)
+(* numbers: int(str(z)) = z *)
+Lemma uint_digits_roundtrip u : uint_of_digits (str_of_uint u) = Some u.
+Proof. induction u; simpl; try reflexivity; rewrite IHu; reflexivity. Qed.
+
+Lemma str_of_uint_digits u : forallb is_digit (str_of_uint u) = true.
+Proof. induction u; simpl; try reflexivity; exact IHu. Qed.
+
+Lemma digits_us_digits l : forallb is_digit l = true -> l <> [] -> digits_us false l = Some l.
+Proof.
+  assert (H : forall l, forallb is_digit l = true -> digits_us true l = Some l).
+  { induction l0 as [|c r IH]; intros Hd; [reflexivity|].
+    simpl in Hd. apply andb_true_iff in Hd. destruct Hd as [Hc Hr].
+    simpl. rewrite Hc. rewrite (IH Hr). reflexivity. }
+  destruct l as [|c r]; intros Hd Hne; [congruence|].
+  simpl in Hd. apply andb_true_iff in Hd. destruct Hd as [Hc Hr].
+  simpl. rewrite Hc. rewrite (H r Hr). reflexivity.
+Qed.
+
+Lemma str_of_uint_nonnil u : u <> Decimal.Nil -> str_of_uint u <> [].
+Proof. destruct u; simpl; congruence. Qed.
+
+Lemma lstrip_id s : match s with c :: _ => is_ws c = false | [] => True end -> lstrip s = s.
+Proof. destruct s as [|c r]; simpl; [reflexivity|]. intros ->. reflexivity. Qed.
+
+Lemma strip_id s : forallb (fun c => negb (is_ws c)) s = true -> strip s = s.
+Proof.
+  intros H. unfold strip.
+  assert (Hh : forall t, forallb (fun c => negb (is_ws c)) t = true ->
+                         match t with c :: _ => is_ws c = false | [] => True end).
+  { intros [|c t] Ht; [exact I|]. simpl in Ht. apply andb_true_iff in Ht. destruct Ht as [Hc _].
+    apply negb_true_iff in Hc. exact Hc. }
+  rewrite (lstrip_id s (Hh s H)).
+  assert (Hr : forallb (fun c => negb (is_ws c)) (rev s) = true).
+  { apply forallb_forall. intros x Hx. apply in_rev in Hx. revert x Hx. apply forallb_forall. exact H. }
+  rewrite (lstrip_id (rev s) (Hh _ Hr)). apply rev_involutive.
+Qed.
+
+Lemma digit_not_ws c : is_digit c = true -> negb (is_ws c) = true.
+Proof.
+  unfold is_digit, is_ws. intros H. apply andb_true_iff in H. destruct H as [H1 H2].
+  apply N.leb_le in H1. apply N.leb_le in H2. apply negb_true_iff. apply orb_false_iff. split.
+  - apply N.eqb_neq. lia.
+  - apply andb_false_iff. right. apply N.leb_gt. lia.
+Qed.
+
+Lemma digits_not_ws l : forallb is_digit l = true -> forallb (fun c => negb (is_ws c)) l = true.
+Proof.
+  intros H. apply forallb_forall. intros x Hx. apply digit_not_ws. revert x Hx. apply forallb_forall. exact H.
+Qed.
+
+Lemma digit_not_sign c : is_digit c = true -> (c =? 45) = false /\ (c =? 43) = false.
+Proof.
+  unfold is_digit. intros H. apply andb_true_iff in H. destruct H as [H1 H2].
+  apply N.leb_le in H1. apply N.leb_le in H2. split; apply N.eqb_neq; lia.
+Qed.
+
+Lemma py_int_uint u : u <> Decimal.Nil -> py_int (str_of_uint u) = Some (Z.of_uint u).
+Proof.
+  intros Hn. unfold py_int.
+  pose proof (str_of_uint_digits u) as Hd.
+  rewrite (strip_id _ (digits_not_ws _ Hd)).
+  destruct (str_of_uint u) as [|c r] eqn:E.
+  { exfalso. apply (str_of_uint_nonnil u Hn). exact E. }
+  assert (Hc : is_digit c = true) by (simpl in Hd; apply andb_true_iff in Hd; tauto).
+  destruct (digit_not_sign c Hc) as [H1 H2]. rewrite H1, H2.
+  rewrite <- E in *. rewrite (digits_us_digits _ Hd (str_of_uint_nonnil u Hn)).
+  rewrite uint_digits_roundtrip. reflexivity.
+Qed.
+
+Lemma py_int_neg u : u <> Decimal.Nil -> py_int (45 :: str_of_uint u) = Some (- Z.of_uint u)%Z.
+Proof.
+  intros Hn. unfold py_int.
+  pose proof (str_of_uint_digits u) as Hd.
+  assert (Hs : strip (45 :: str_of_uint u) = 45 :: str_of_uint u).
+  { apply strip_id. simpl. apply digits_not_ws. exact Hd. }
+  rewrite Hs. replace (45 =? 45) with true by reflexivity.
+  rewrite (digits_us_digits _ Hd (str_of_uint_nonnil u Hn)).
+  rewrite uint_digits_roundtrip. reflexivity.
+Qed.
+
+Theorem py_int_dec z : py_int (dec_of_Z z) = Some z.
+Proof.
+  unfold dec_of_Z. pose proof (DecimalZ.of_to z) as H.
+  destruct z as [|p|p]; cbn [Z.to_int] in *.
+  - reflexivity.
+  - rewrite py_int_uint by apply DecimalPos.Unsigned.to_uint_nonnil. cbn [Z.of_int] in H. rewrite H. reflexivity.
+  - rewrite py_int_neg by apply DecimalPos.Unsigned.to_uint_nonnil. cbn [Z.of_int] in H. rewrite H. reflexivity.
+Qed.
+
+(* ---------- timespan ---------- *)
+(* the seconds of a parsed time span are count x unit length for each of the seven units, and the
+   number printed in seconds mode reads back (with Python's int) as exactly that product *)
+Theorem timespan_seconds spec t : parse_ts spec = Some t ->
+  exists len, unit_len (t_unit t) = Some len /\ t_seconds t = (t_count t * len)%Z /\
+              py_int (render_ts TsSeconds spec t) = Some (t_count t * len)%Z /\
+              (exists body, spec = body ++ [t_unit t] /\ py_int body = Some (t_count t)).
+Proof.
+  unfold parse_ts. intros H.
+  destruct (rev spec) as [|u rc] eqn:Er; [discriminate|].
+  destruct (py_int (rev rc)) as [n|] eqn:En; [|discriminate].
+  destruct (unit_len u) as [len|] eqn:Eu; [|discriminate].
+  inversion H; subst; clear H. cbn [t_unit t_count t_seconds]. exists len. repeat split; auto.
+  - cbn [render_ts t_seconds]. apply py_int_dec.
+  - exists (rev rc). split; [|exact En].
+    rewrite <- (rev_involutive spec). rewrite Er. reflexivity.
+Qed.
+
+Lemma unit_table :
+  unit_len 115 = Some 1%Z /\ unit_len 109 = Some 60%Z /\ unit_len 104 = Some 3600%Z /\
+  unit_len 100 = Some 86400%Z /\ unit_len 119 = Some 604800%Z /\ unit_len 77 = Some 2629746%Z /\
+  unit_len 121 = Some 31556952%Z /\
+  (forall u, u <> 115 -> u <> 109 -> u <> 104 -> u <> 100 -> u <> 119 -> u <> 77 -> u <> 121 -> unit_len u = None).
+Proof.
+  repeat split; try reflexivity.
+  intros u H1 H2 H3 H4 H5 H6 H7. unfold unit_len.
+  repeat match goal with |- context [?a =? ?b] => destruct (N.eqb_spec a b); [congruence|] end.
+  reflexivity.
+Qed.
+
+(* ---------- extended conditions ---------- *)
+Lemma xshape_wfb K t : xshape t = true -> wfb (xcfg K) t = true.
+Proof.
+  induction t as [k f n a|args IH|f ps|a|a IH|o args IH] using cond_ind'; simpl; intros H; try discriminate; auto.
+  - rewrite (IH H). reflexivity.
+  - apply andb_true_iff in H. destruct H as [H1 H2]. apply andb_true_iff. split.
+    + destruct args; [discriminate H1|reflexivity].
+    + clear H1. induction args as [|x r IHr]; [reflexivity|].
+      apply andb_true_iff in H2. destruct H2 as [Hx Hr].
+      inversion IH as [|? ? Px Pr]; subst. rewrite (Px Hx). simpl. apply IHr; assumption.
+Qed.
+
+Theorem ext_structure K asg t : cfg_ok K = true -> xshape t = true ->
+  exists f, pe (lvl K) asg f 3 (conv (xcfg K) false t) = Some (den asg t, []).
+Proof.
+  intros HK Hx.
+  exact (structure_b (xcfg K) asg t HK (xshape_wfb K t Hx)).
+Qed.
